@@ -325,18 +325,18 @@ func writeEvidenceFile(id, tier string, seed int, rr *runResult, expected []stri
 		"fresh allocations lie above an allocation watermark (never overlap earlier blocks)")
 	level := "proof"
 	cov := map[string]interface{}{
-		"obligations":            len(expected),
-		"discharged":             discharged,
-		"checker_cmd":            fmt.Sprintf("/verif/bin/govc check -property %s -tier %s", id, tier),
-		"trusted_base":           trusted,
+		"obligations":              len(expected),
+		"discharged":               discharged,
+		"checker_cmd":              fmt.Sprintf("/verif/bin/govc check -property %s -tier %s", id, tier),
+		"trusted_base":             trusted,
 		"functions_under_contract": funcs,
-		"paths":                  rr.paths,
-		"per_obligation":         obls,
-		"unclaimed_obligations":  unclaimed,
-		"backends":               backends,
-		"solver_wall_ms":         rr.solverMs,
-		"samples":                samples,
-		"path_cap_exceeded":      rr.truncated,
+		"paths":                    rr.paths,
+		"per_obligation":           obls,
+		"unclaimed_obligations":    unclaimed,
+		"backends":                 backends,
+		"solver_wall_ms":           rr.solverMs,
+		"samples":                  samples,
+		"path_cap_exceeded":        rr.truncated,
 	}
 	ev := map[string]interface{}{
 		"property_id": id, "tier": tier, "seed": seed, "level": level, "coverage": cov,
